@@ -169,8 +169,10 @@ def gen_side(rng, T, server, hostkeys):
     return s
 
 
-def build_real(paramiko, s, hostkeys, sock=None, pack=None):
-    kw = dict(disabled_algorithms={c: list(v) for c, v in s.dis.items()}, strict_kex=s.strict)
+def build_real(paramiko, s, hostkeys, sock=None, pack=None, dis_dict=None):
+    if dis_dict is None:
+        dis_dict = {c: list(v) for c, v in s.dis.items()}
+    kw = dict(disabled_algorithms=dis_dict, strict_kex=s.strict)
     if sock is None:
         t = lib_kdf.bare_transport(paramiko, server_mode=s.server, **kw)
     else:  # a real transport over a (loop) socket; start_server()/start_client() set the role
@@ -777,6 +779,171 @@ def run(ctx):
                      "client %r server %r" % (pc[2], ps[2]))
 
 
+    # ------------------------------------------------------------------ (h) histories on ONE transport object
+    # reads of preferred_* / get_security_options(), changes of disabled_algorithms (re-assignment, in-place mutation,
+    # mutation of the dict the constructor was given), SecurityOptions assignments (accepted / refused) — then a
+    # negotiation, more of the same, and a re-negotiation.  The model gets only the state AT negotiation time.
+    import copy
+    PROP = {"kex": "preferred_kex", "keys": "preferred_keys", "ciphers": "preferred_ciphers",
+            "macs": "preferred_macs", "compression": "preferred_compression"}
+    n_hist = 6000 if ctx.thorough else 500
+
+    def expected_read(side, c):
+        pref = side.current(T, c)
+        dis = side.dis.get(c, [])
+        out = [x for x in pref if x not in dis]
+        if c == "keys":
+            out = out + [x + CERT for x in out if x + CERT not in dis]
+        return out
+
+    def do_ops(side, t, st, n_ops, log):
+        for _ in range(n_ops):
+            r = rng.random()
+            c = rng.choice(CATS)
+            if r < 0.35:  # read
+                if rng.random() < 0.5:
+                    got = list(getattr(t, PROP[c]))
+                    want = expected_read(side, c)
+                    log.append(("read preferred_" + c,))
+                    if got != want:
+                        bad = [x for x in got if x in side.dis.get(c, [])]
+                        ctx.fail(("read-shows-disabled:" if bad else "read-not-current:") + c,
+                                 {"side": side.describe(), "history": list(log)},
+                                 "t.%s = %r, current preferences minus currently disabled = %r" % (PROP[c], got, want))
+                else:
+                    getattr(t.get_security_options(), SETTER[c])
+                    log.append(("read security_options." + SETTER[c],))
+            elif r < 0.75:  # change disabled_algorithms[c]
+                pool = info[c]
+                cur = side.current(T, c)
+                new = rand_subset(rng, pool, rng.choice([0.1, 0.2, 0.4]))
+                if cur and rng.random() < 0.6:  # aim at what would otherwise be chosen: the head of the list
+                    new = list(dict.fromkeys(cur[: rng.choice([1, 1, 2, 3])] + new))
+                if rng.random() < 0.1:
+                    new = []
+                how = rng.choice(["reassign", "inplace", "ctor"] if st["aliased"] else ["reassign", "inplace"])
+                if how == "reassign":
+                    d = {k: list(v) for k, v in side.dis.items()}
+                    d[c] = list(new)
+                    t.disabled_algorithms = d
+                    st["aliased"] = False
+                elif how == "inplace":
+                    if c in t.disabled_algorithms and rng.random() < 0.5:
+                        t.disabled_algorithms[c][:] = list(new)  # mutate the list object itself
+                    else:
+                        t.disabled_algorithms[c] = list(new)
+                else:
+                    st["ctor"][c] = list(new)  # the caller's own dict, which the transport keeps by reference
+                side.dis[c] = list(new)
+                log.append(("disabled[%s] %s" % (c, how), list(new)))
+            else:  # SecurityOptions assignment
+                x = rand_subset(rng, info[c], rng.choice([0.5, 0.9, 1.0]))
+                rng.shuffle(x)
+                refuse = rng.random() < 0.3
+                if refuse:
+                    x.insert(rng.randrange(len(x) + 1), rng.choice(REFUSED_POOL))
+                try:
+                    setattr(t.get_security_options(), SETTER[c], tuple(x))
+                    if refuse:
+                        ctx.fail("setter-validation:" + c, {"side": side.describe(), "assigned": x}, "no ValueError")
+                    side.pref[c] = list(x)
+                except ValueError:
+                    if refuse:
+                        side.refused.append((c, list(x)))
+                    else:
+                        ctx.fail("setter-validation:" + c, {"side": side.describe(), "assigned": x}, "ValueError")
+                log.append(("set %s%s" % (c, " (refused)" if refuse else ""), list(x)))
+
+    hist = []
+    for i in range(n_hist):
+        side = gen_side(rng, T, rng.random() < 0.5, hostkeys)
+        side.monkey_kex, side.refused = None, []
+        if i % 4 == 0:
+            side.dis = {}
+        ctor = {c: list(v) for c, v in side.dis.items()}
+        t = build_real(paramiko, side, hostkeys, dis_dict=ctor)
+        st = {"aliased": t.disabled_algorithms is ctor, "ctor": ctor}
+        log, rounds = [], []
+        for rnd in (1, 2):
+            if rnd == 1 and i % 5 == 0:
+                for c in CATS:  # inspect first, configure afterwards
+                    getattr(t, PROP[c])
+                log.append(("read all preferred_*",))
+            do_ops(side, t, st, rng.choice([1, 2, 3, 5]) if rnd == 1 else rng.choice([1, 2, 3]), log)
+            if rnd == 2:
+                side.initial_done = True
+                t.initial_kex_done = True
+                side.agreed_strict = bool(t.agreed_on_strict_kex)
+            snap = copy.deepcopy(side)
+            r = real_send(t)
+            if r[0] == "ok":
+                side.pref["kex"] = list(t._preferred_kex)  # a moduli-less server dropped group exchange
+            # the peer: mostly everything in table order, so that whatever we offer first is what gets agreed
+            lists = []
+            for j in range(8):
+                l = list(info[CAT_OF[j]])
+                if j == 1:
+                    l = [n for n in l if not n.endswith(CERT)] + [n for n in l if n.endswith(CERT)]
+                if rng.random() < 0.3:
+                    rng.shuffle(l)
+                if rng.random() < 0.2:
+                    l = rand_subset(rng, l, 0.7)
+                if j == 0 and rng.random() < 0.5:
+                    l.insert(rng.randrange(len(l) + 1), "kex-strict-%s-v00@openssh.com" % ("c" if side.server else "s"))
+                lists.append(l)
+            res = None
+            if r[0] == "ok":
+                res = real_parse(paramiko, t, build_kexinit(paramiko, lists, rng), 0, kex_names)
+            rounds.append((snap, r, lists, res, list(log)))
+        hist.append(rounds)
+
+    reqs = []
+    for rounds in hist:
+        for snap, r, lists, res, _log in rounds:
+            reqs.append("send " + snap.tokens(T))
+    model_hs = ctx.driver("C05", reqs)
+    preqs, pidx, k = [], {}, 0
+    for hi, rounds in enumerate(hist):
+        for ri, (snap, r, lists, res, _log) in enumerate(rounds):
+            if model_hs is not None and model_hs[k] != show_send(r):
+                ctx.disagree("_send_kex_init after a history (round %d)" % (ri + 1),
+                             {"side": snap.describe(), "history": _log}, model_hs[k], show_send(r))
+            if r[0] == "ok":
+                mp = r[1]
+                if model_hs is not None and model_hs[k].startswith("ok "):
+                    tok = model_hs[k].split(" ")[1]
+                    mp = [] if tok == "~" else bytes.fromhex(tok).decode("utf-8").split(",")
+                pidx[(hi, ri)] = len(preqs)
+                preqs.append("parse %s %s 0" % (snap.tokens(T, mp), " ".join(wire_tok(l) for l in lists)))
+            k += 1
+    model_hp = ctx.driver("C05", preqs) if preqs else []
+    for hi, rounds in enumerate(hist):
+        for ri, (snap, r, lists, res, _log) in enumerate(rounds):
+            case = {"side": snap.describe(), "history": _log, "round": ri + 1, "peer_kexinit": lists,
+                    "own_kexinit": r[2] if r[0] == "ok" else None}
+            if r[0] != "ok":
+                if r[0] == "raise":
+                    ctx.fail("negotiation-raises:" + r[1], case, r[2])
+                continue
+            ctx.case(("hist", repr(_log), repr(lists), ri), True)
+            ctx.dist("history:round%d:%s" % (ri + 1, res[1] if res[0] == "err" else res[0]))
+            if hi % 120 == 0 and ri == 1:
+                ctx.sample(dict(case, result=show_parse(res)))
+            # nothing disabled NOW may be offered, whatever the outcome of the negotiation
+            for j in range(8):
+                now = snap.dis.get(CAT_OF[j], [])
+                bad = [n for n in r[2][j] if n in now and not (j == 0 and is_marker(n))]
+                if bad:
+                    ctx.fail("disabled-algorithm-advertised:%s:after-history" % CAT_OF[j], case,
+                             "KEXINIT of round %d offers %r, disabled at that time: %r" % (ri + 1, bad, now))
+                    break
+            if model_hp is not None and model_hp[pidx[(hi, ri)]] != show_parse(res):
+                ctx.disagree("_parse_kex_init after a history (round %d)" % (ri + 1), case,
+                             model_hp[pidx[(hi, ri)]], show_parse(res))
+            wire_lists = [(",".join(l).split(",") if ",".join(l) else []) for l in lists]
+            spec = spec_tuple(wire_lists, r[2]) if snap.server else spec_tuple(r[2], wire_lists)
+            oracle_one(ctx, case, snap.server, snap, res, spec, r[2])
+
     # ------------------------------------------------------------------ (e) real handshakes with random configurations
     import logging
     from paramiko.primes import ModulusPack
@@ -822,10 +989,17 @@ META = {
               "assignment (state after a refused assignment = state before; setPref_raise/ok/wf) and the invariant is "
               "proved for every history of assignments (wf_after_setters), hence only table names are ever advertised or "
               "agreed, never a refused name (agreed_in_tables, advertised_in_tables). "
+              "Histories on one transport (reads of preferred_*, disabled_algorithms re-assigned / mutated, assignments, "
+              "then negotiation and re-negotiation) are modelled: reads are no-ops, the offered lists are a pure function "
+              "of the preferences and disabled sets at that moment, equal final configurations negotiate identically, and "
+              "nothing disabled at negotiation time is offered or agreed (reads_are_noops, preferred_pure, "
+              "history_independent, history_never_disabled). "
               "Tables/preference tuples are regenerated from transport.py each run. "
               "Tied by differential runs of the real _send_kex_init/_parse_kex_init (both roles, two rounds, plus "
               "hand-built hostile KEXINITs, peers that offer exactly the name the local side was refused), of every "
-              "SecurityOptions setter with accepted and refused tuples, and real handshakes with random "
+              "SecurityOptions setter with accepted and refused tuples, of operation histories on one transport object "
+              "(reads, disabled_algorithms re-assignment / in-place mutation / mutation of the constructor's dict, "
+              "assignments, negotiate, more operations, re-negotiate), and real handshakes with random "
               "configurations. Two defects found and fixed (857cd48, 6da136d)."),
     "note": ("Trusted: Lean kernel + 3 standard axioms; the harness (generators, own KEXINIT parser, first-common oracle); "
              "Message.add_list/get_list = joinComma/splitComma (C39); UTF-8 decoding of names. The strict-kex sequence "
